@@ -359,6 +359,16 @@ def fam_zero_overrides():
         edges = [EdgeSpec('n0/o1/x', 'n1/o1/u', fp()), EdgeSpec('m0/li/x', 'n0/o1/w', fp()), EdgeSpec('n1/o1/x', 'm0/li/u', fp()),
                  EdgeSpec('n2/o1/x', 'n1/o1/w', F(0) if variant else fp())]
         out.append((f"FZ:{variant}", ModelSpec('m', ops, nodes, edges, note="per-node values equal to 0")))
+    # edge attributes that are exactly 0: a switched-off plain edge, and an edge operator constant set to 0 on one edge
+    fp = FP()
+    ops = {'li': op_leaky(fp), 'o1': op_two_inputs(fp), 'eop': op_lin_alg(fp, 'eop', out='z', inp='q', gain='gn')}
+    nodes = {f"n{i}": NodeSpec(['li'] if i == 0 else ['o1'], _node_overrides(fp, ops, ['li'] if i == 0 else ['o1']))
+             for i in range(3)}
+    edges = [EdgeSpec('n0/li/x', 'n1/o1/u', fp(), template='et', edge_overrides={'eop/gn': F(0)}),
+             EdgeSpec('n1/o1/x', 'n2/o1/u', fp(), template='et', edge_overrides={'eop/gn': fp()}),
+             EdgeSpec('n2/o1/x', 'n1/o1/w', F(0)), EdgeSpec('n2/o1/x', 'n0/li/u', fp())]
+    out.append(("FZ:edge-attributes", ModelSpec('m', ops, nodes, edges, {'et': EdgeTplSpec('et', ['eop'])},
+                                                note="edge weight 0 and edge-operator constant 0")))
     return out
 
 
@@ -761,6 +771,15 @@ def fam_gamma_fixed():
                                                    E('a1/li/x', 'a2/li/u', fp(), delay=A_[0], spread=A_[1]),
                                                    E('a2/li/x', 'a0/li/u', fp(), delay=F(1), spread=F(2, 3))],
                                        "kernel groups [A, B, A, B] with different orders", n=4)))
+
+    out.append(("F11x:close-rates", mk(lambda fp: [E('a0/li/x', 'a1/li/u', fp(), delay=F(40), spread=F(20)),
+                                                   E('a0/li/x', 'a2/li/u', fp(), delay=F(41), spread=F(20)),
+                                                   E('a1/li/x', 'a0/li/u', fp(), delay=F(10), spread=F(4))],
+                                       "two kernels of one order out of one source whose rates 4/40 and 4/41 differ by "
+                                       "less than 0.005 (time in ms)")))
+    out.append(("F11x:close-rates-2", mk(lambda fp: [E('a0/li/x', 'a1/li/u', fp(), delay=F(2000), spread=F(1000)),
+                                                     E('a1/li/x', 'a2/li/u', fp(), delay=F(2001), spread=F(1000))],
+                                         "rates 4/2000 and 4/2001 out of one vectorized source variable")))
 
     def mk_perm(order, note):
         m = mk(lambda fp: [E('a0/li/x', 'a1/li/u', fp(), delay=A_[0], spread=A_[1]),
